@@ -36,6 +36,9 @@ func (c *Ctx) Emit(kind string, input, impl Sx) {
 	c.N++
 	c.Kinds[kind]++
 	fmt.Fprintf(c.W, "%d\t%s\t%s\t%s\n", c.N, kind, input.String(), impl.String())
+	// flushed per case: if the code under test takes the harness down (a fatal run-time error cannot be
+	// recovered) the cases observed so far are still judged
+	c.W.Flush()
 }
 
 var gens = map[string]func(*Ctx){}
@@ -82,6 +85,8 @@ func main() {
 		}
 	case "worker":
 		workerMain()
+	case "c04conc":
+		c04ConcMain()
 	case "inspect1":
 		inspect1Main()
 	case "mkfixtures":
